@@ -30,7 +30,8 @@ SerializeCanonOK(s, f) ==
 Accept(ev) ==
   \/ ev.op = "reset"
   \/ ev.op = "serialize" /\ ev.post = st /\ (BF!ValidContent(st) => ev.res.ok) /\ (ev.res.ok => SerializeStructOK(st, ev.res.v))
-  \/ ev.op # "serialize" /\ Allowed(st, ev, [res |-> ev.res, pos |-> ev.pos, st |-> ev.post])
+  \/ ev.op = "session" /\ "steps" \in DOMAIN ev.res /\ SessionAllowed(st, ev.a, ev.steps, ev.res.steps, ev.post)
+  \/ ev.op \notin {"serialize", "session", "reset"} /\ Allowed(st, ev, [res |-> ev.res, pos |-> ev.pos, st |-> ev.post])
 \* serialize events whose image is structurally fine but not the canonical image
 NonCanonical(ev) == ev.op = "serialize" /\ ev.res.ok /\ Accept(ev) /\ ~SerializeCanonOK(st, ev.res.v)
 
